@@ -23,9 +23,12 @@ def main():
                 props.append(json.loads(l)['id'])
     checks = []
     not_app = []
+    # checks are claimed only once they have been run silent on the unchanged tree (list kept by hand)
+    with open(os.path.join(HERE, 'vf', 'enabled.txt')) as f:
+        enabled = set(f.read().split())
     for pid in props:
         path = os.path.join(HERE, 'vf', 'checks', '%s.py' % pid.lower())
-        if pid in NOT_CLAIMED or not os.path.exists(path):
+        if pid in NOT_CLAIMED or not os.path.exists(path) or pid not in enabled:
             not_app.append({'property_id': pid, 'reason': NOT_CLAIMED.get(pid, PENDING)})
             continue
         mod = importlib.import_module('vf.checks.%s' % pid.lower())
